@@ -168,6 +168,7 @@ class gre (packet_base):
             self.next = raw[o:]
 
     def hdr (self, payload):
+        if self.compute_csum: self.csum = True
         if self.skip_csum: self.csum = None
         flags = self.ver & 7
         if self.csum is not None: flags |= 0x8000
@@ -178,8 +179,6 @@ class gre (packet_base):
         flags |= (self.recursion & 7) << 8
 
         r = struct.pack("!HH", flags, self.type)
-
-        if self.compute_csum: self.csum = True
 
         if (self.routing is not None) or (self.csum is not None):
             # If we're doing checksum computation, insert a 0 for now, and
